@@ -291,9 +291,10 @@ func extractSeqFacts(dir string) seqFacts {
 							f.fieldsPrivate = false
 						}
 					case *ast.KeyValueExpr:
-						if k, ok := v.Key.(*ast.Ident); ok && (k.Name == seqFieldA || k.Name == seqFieldB) && !isCtor {
-							f.fieldsPrivate = false
-						}
+						// `sequenceNumber: …` inside a composite literal initialises a NEW sequencer value;
+						// that is construction (in the constructors or a helper they call), not an access
+						// to a shared instance, so it is never a breach of the lock discipline
+						_ = isCtor
 					}
 					return true
 				})
